@@ -97,3 +97,114 @@ package meshops
 //@     invariant bounds: 0 <= triI && triI <= len(finalIndices) && len(finalIndices) == len(m.indices) && fresh(finalIndices) && off(finalIndices) == 0
 //@     invariant compact_indices: forall j int :: 0 <= j && j < triI ==> 0 <= finalIndices[j] && finalIndices[j] < count(used, len(used))
 //@     invariant idx_lt: forall j int :: 0 <= j && j < len(m.indices) ==> 0 <= m.indices[j] && m.indices[j] < len(used)
+
+// ---- C01 breadth: frame-only contracts ("modifies nothing": every store / append / copy / map write
+// targets memory allocated by the call itself; no functional postcondition is claimed here) ----
+//@ func CenterAttribute3DTransformer.Transform frameonly
+//@   props C01
+//@ func CenterFloat3Attribute frameonly
+//@   props C01
+//@ func ColorGradingLutTransformer.Transform frameonly
+//@   props C01
+//@ func ColorGradingLut frameonly
+//@   props C01
+//@ func CropAttribute3DTransformer.Transform frameonly
+//@   props C01
+//@ func CropFloat3Attribute frameonly
+//@   props C01
+//@ func CustomTransformer.Transform frameonly
+//@   props C01
+//@ func FilterFloat1Transformer.Transform frameonly
+//@   props C01
+//@ func FilterFloat1 frameonly
+//@   props C01
+//@ func FilterFloat2Transformer.Transform frameonly
+//@   props C01
+//@ func FilterFloat2 frameonly
+//@   props C01
+//@ func FilterFloat3Transformer.Transform frameonly
+//@   props C01
+//@ func FilterFloat3 frameonly
+//@   props C01
+//@ func FilterFloat4Transformer.Transform frameonly
+//@   props C01
+//@ func FilterFloat4 frameonly
+//@   props C01
+//@ func FlatNormalsTransformer.Transform frameonly
+//@   props C01
+//@ func FlatNormals frameonly
+//@   props C01
+//@ func FlipTriangleWindingTransformer.Transform frameonly
+//@   props C01
+//@ func LaplacianSmoothTransformer.Transform frameonly
+//@   props C01
+//@ func LaplacianSmooth frameonly
+//@   props C01
+//@ func LaplacianSmoothAlongAxis frameonly
+//@   props C01
+//@ func NormalizeAttribute3DTransformer.Transform frameonly
+//@   props C01
+//@ func NormalizeAttribute3D frameonly
+//@   props C01
+//@ func NormalizeAttribute2DTransformer.Transform frameonly
+//@   props C01
+//@ func NormalizeAttribute2D frameonly
+//@   props C01
+//@ func RemoveNullFaces3DTransformer.Transform frameonly
+//@   props C01
+//@ func RemoveNullFaces3D frameonly
+//@   props C01
+//@ func RemovedUnreferencedVerticesTransformer.Transform frameonly
+//@   props C01
+//@ func RotateAttribute3DTransformer.Transform frameonly
+//@   props C01
+//@ func RotateAttribute3D frameonly
+//@   props C01
+//@ func ScaleAttribute3DTransformer.Transform frameonly
+//@   props C01
+//@ func ScaleAttribute3D frameonly
+//@   props C01
+//@ func ScaleAttributeAlongNormalTransformer.Transform frameonly
+//@   props C01
+//@ func ScaleAttributeAlongNormal frameonly
+//@   props C01
+//@ func ScaleAttribute2DTransformer.Transform frameonly
+//@   props C01
+//@ func ScaleAttribute2D frameonly
+//@   props C01
+//@ func SliceByPlaneTransformer.Transform frameonly
+//@   props C01
+//@ func SliceByPlaneWithAttribute frameonly
+//@   props C01
+//@ func SmoothNormalsTransformer.Transform frameonly
+//@   props C01
+//@ func SmoothNormals frameonly
+//@   props C01
+//@ func SmoothNormalsImplicitWeldTransformer.Transform frameonly
+//@   props C01
+//@ func SmoothNormalsImplicitWeld frameonly
+//@   props C01
+//@ func SplitOnUniqueMaterials frameonly
+//@   props C01
+//@ func TranslateAttribute3DTransformer.Transform frameonly
+//@   props C01
+//@ func TranslateAttribute3D frameonly
+//@   props C01
+//@ func UnweldTransformer.Transform frameonly
+//@   props C01
+//@ func Unweld frameonly
+//@   props C01
+//@ func readAllFloatXData frameonly
+//@   props C01
+//@ func readAllFloat4Data frameonly
+//@   props C01
+//@ func readAllFloat3Data frameonly
+//@   props C01
+//@ func readAllFloat2Data frameonly
+//@   props C01
+//@ func readAllFloat1Data frameonly
+//@   props C01
+//@ func VertexColorSpaceTransformer.Transform frameonly
+//@   props C01
+//@ func VertexColorSpace frameonly
+//@   props C01
